@@ -571,7 +571,7 @@ def model_requests(c, io_):
         return [{"m": "c18", "op": "mapping", "adds": c["adds"], "queries": c["queries"]}]
     if k == "remap":
         return [{"m": "c18", "op": "remap", "adds": c["adds"], "files": c["files"], "mode": c["mode"], "flavor": NATIVE,
-                 "deps": c["deps"]}]
+                 "deps": c["deps"], "pinned": False}]
     raise ValueError(k)
 
 
